@@ -6,12 +6,12 @@ func init() {
 	registerProp(&Property{
 		ID: "C01", Kind: "necessary structural clauses",
 		Tech:  "effect summaries + CFG/SSA lints (iterator invalidation, shift bounds, normaliser order, recursion guards, iteration caps, inverse pairs)",
-		Rules: []string{"LANG-0", "ITER-1", "SHIFT-1", "ORD-4", "REC-1", "PROG-1", "CAP-1", "EFF-2", "ORD-2", "POST-1", "ACYC-1", "SPLIT-1", "PROG-2", "NIL-1"},
+		Rules: []string{"LANG-0", "ITER-1", "SHIFT-1", "ORD-4", "REC-1", "PROG-1", "CAP-1", "EFF-2", "ORD-2", "POST-1", "ACYC-1", "SPLIT-1", "PROG-2", "NIL-1", "STALE-1"},
 		Explanation: "Panic-freedom and termination of network simplex, weighted median, the compaction algorithms, the funnel and the spline fitter quantify over run-time values; no sound bound is in reach, so the check decides necessary clauses that are visible in the shape of the code: " +
 			"ITER-1 no loop removes the element it is visiting from the adjacency/edge list it iterates (skipped edges left the graph cyclic -> 'still cyclic' panic); SHIFT-1 no unbounded shift (layer masks collapsed at 64 layers -> matrix index panic); " +
 			"ORD-4 layers stay >= 0 after normalisation (negative layers index the layer slice); REC-1 every recursive traversal has a mark-and-test guard or a reviewed termination argument; PROG-1 the flag-guarded fix-point of the default positioner repeats only after strictly increasing a coordinate; PROG-2 the repeat-while-improved exchange pass of the ordering phase asks for another pass only after a strict decrease of the crossing count (an equally good swap kept to leave local minima alternates for ever); CAP-1 the two documented iteration caps exist and depend on their options; " +
 			"EFF-2 + ORD-2 self-loops are out of all three lists while the pipeline runs and back afterwards, and every phase runs on a connected component in phase order; ACYC-1 the acyclicity test that lets phase 1 return early starts a search from every node (a missed cycle makes layering and positioning recurse for ever); POST-1 the layering phase builds the layer table on every path to a normal return (later phases index it unconditionally, also for one-node components); SPLIT-1 a component is cut from sets that hold the marks of one walk only (a component with another component's edges makes the phases index out of range). " +
-			"NIL-1 a geometry function's nil result (no result) is tested before it is indexed - on the reference tree this reports a genuine, recorded defect: geom.Shortest indexes the diagonal list of crossedDiagonals unconditionally, and spline routing panics with index out of range [-1] whenever the dual graph of the corridor triangulation does not connect the start and end triangles (known_findings.txt). Not decided: explicit panic sites guarded by run-time preconditions, index/nil safety in general, termination of feasibleTree, placeBlock, the funnel loops and the predecessor walk in geom.Shortest, memory budgets.",
+			"NIL-1 a geometry function's nil result (no result) is tested before it is indexed - on the reference tree this reports a genuine, recorded defect: geom.Shortest indexes the diagonal list of crossedDiagonals unconditionally, and spline routing panics with index out of range [-1] whenever the dual graph of the corridor triangulation does not connect the start and end triangles (known_findings.txt). STALE-1 a map cell that is tested before it is set inside a loop is tested in the iteration that sets it (seeded change C01h hoisted Brandes-Koepf's not-aligned-yet test in front of the loop over the median neighbours: a node aligned with both medians breaks the block cycle and the compaction never returns to its root). Not decided: explicit panic sites guarded by run-time preconditions, index/nil safety in general, termination of feasibleTree, placeBlock, the funnel loops and the predecessor walk in geom.Shortest, memory budgets.",
 		Assumptions: []string{"clauses are necessary, not sufficient, for the property", "REC-1's reviewed table (5 functions) is correct"},
 	})
 	registerProp(&Property{
